@@ -15,6 +15,9 @@ import PlatypusModel.Model.Indicators
 import PlatypusModel.Model.LinAlg
 import PlatypusModel.Model.Codec
 import PlatypusModel.Model.Problems
+import PlatypusModel.Model.WFG
+import PlatypusModel.Model.UF
+import PlatypusModel.Model.CF
 open Wire Platypus
 
 namespace Ops
@@ -143,23 +146,23 @@ def opsEps (op : String) : Option (P String) :=
       let c ← bool; let dirs ← list bool; let eps ← list flt; let a ← solF; let b ← solF
       match epsGuardF dirs eps [a, b] with
       | some e => pure e
-      | none => pure s!"{epsCompare flF sqF c dirs eps a b} {if sameBox flF c dirs eps a b then 1 else 0}"
+      | none => pure s!"{epsCompareP flF sqF c dirs eps a b} {if sameBox flF c dirs eps a b then 1 else 0}"
   | "epsQ" => some do
       let c ← bool; let dirs ← list bool; let eps ← list rat; let a ← solQ; let b ← solQ
-      pure s!"{epsCompare flQ sqQ c dirs eps a b} {if sameBox flQ c dirs eps a b then 1 else 0}"
+      pure s!"{epsCompareP flQ sqQ c dirs eps a b} {if sameBox flQ c dirs eps a b then 1 else 0}"
   | "epsArchF" => some do
       let c ← bool; let dirs ← list bool; let eps ← list flt; let xs ← list solF
       match epsGuardF dirs eps xs with
       | some e => pure e
-      | none => pure (epsTrace (epsCompare flF sqF c dirs eps) (sameBox flF c dirs eps) (·.id) xs)
+      | none => pure (epsTrace (epsCompareP flF sqF c dirs eps) (sameBox flF c dirs eps) (·.id) xs)
   | "epsArchQ" => some do
       let c ← bool; let dirs ← list bool; let eps ← list rat; let xs ← list solQ
-      pure (epsTrace (epsCompare flQ sqQ c dirs eps) (sameBox flQ c dirs eps) (·.id) xs)
+      pure (epsTrace (epsCompareP flQ sqQ c dirs eps) (sameBox flQ c dirs eps) (·.id) xs)
   | "archiveEpsF" => some do   -- plain Archive with the ε comparator (OMOPSO / CMA-ES style)
       let c ← bool; let dirs ← list bool; let eps ← list flt; let xs ← list solF
       match epsGuardF dirs eps xs with
       | some e => pure e
-      | none => pure (archiveTrace (epsCompare flF sqF c dirs eps) (·.id) [] xs)
+      | none => pure (archiveTrace (epsCompareP flF sqF c dirs eps) (·.id) [] xs)
   | _ => none
 
 structure RS where
@@ -502,6 +505,25 @@ def opsProblems (op : String) : Option (P String) :=
       let x ← list bits
       let (f1, g, d) := zdt5 x
       pure s!"o {f1} {g} {d}"
+  | "wfg" => some do
+      let i ← nat; let k ← nat; let m ← nat; let z ← list flt
+      let o : WOps Float := { floor := Float.floor, ceil := Float.ceil, abs := Float.abs, le := fun a b => a ≤ b, eps := 1e-10 }
+      pure ("o " ++ showFs (match i with
+        | 1 => wfg1 trigF o k m z | 2 => wfg23 trigF o k m z false | 3 => wfg23 trigF o k m z true
+        | 4 => wfg4 trigF o k m z | 5 => wfg5 trigF o k m z | 6 => wfg6 trigF o k m z
+        | 7 => wfg7 trigF o k m z | 8 => wfg8 trigF o k m z | _ => wfg9 trigF o k m z))
+  | "uf" => some do
+      let i ← nat; let x ← list flt
+      let o : WOps Float := { floor := Float.floor, ceil := Float.ceil, abs := Float.abs, le := fun a b => a ≤ b, eps := 1e-10 }
+      pure ("o " ++ showFs (match i with
+        | 1 => uf1 trigF x | 2 => uf2 trigF x | 3 => uf3 trigF x | 4 => uf4 trigF o x | 5 => uf5 trigF o x
+        | 6 => uf6 trigF o x | 7 => uf7 trigF x | 8 => uf8 trigF x | 9 => uf9 trigF o x | _ => uf10 trigF x))
+  | "cf" => some do
+      let i ← nat; let x ← list flt
+      let o : WOps Float := { floor := Float.floor, ceil := Float.ceil, abs := Float.abs, le := fun a b => a ≤ b, eps := 1e-10 }
+      pure ("o " ++ showFs (match i with
+        | 1 => cf1 trigF o x | 2 => cf2 trigF o x | 3 => cf3 trigF x | 4 => cf4 trigF o x | 5 => cf5 trigF o x
+        | 6 => cf6 trigF o x | 7 => cf7 trigF o x | 8 => cf8 trigF o x | 9 => cf9 trigF o x | _ => cf10 trigF o x))
   | "dtlz" => some do
       let k ← nat; let m ← nat; let x ← list flt
       pure ("o " ++ showFs (match k with
